@@ -212,8 +212,9 @@ func search(subject, sub []rel.Value) int {
 			subOffset++
 		} else {
 			if subOffset > 0 && subOffset < len(sub) {
+				// Restart just after the start of the failed partial match.
+				subjectOffset -= subOffset
 				subOffset = 0
-				subjectOffset--
 			}
 		}
 		if subOffset == len(sub) {
